@@ -62,8 +62,19 @@ func (p ownPod) String() string {
 
 type ownRev struct {
 	Present bool
-	Owner   string // "", none, otheruid, otherkind
+	Owner   string // "", none, otheruid, otherkind, builtin
 	Labels  string // "selector", "marker", "both"
+}
+
+// migrationPending: a revision carrying the upgrade marker is still controlled by the built-in StatefulSet of the same
+// name, i.e. the garbage collector has not yet orphaned the history the set is about to inherit.
+func (c ownCase) migrationPending() bool {
+	for _, r := range c.Revs {
+		if r.Present && r.Owner == "builtin" && r.Labels != "selector" {
+			return true
+		}
+	}
+	return false
 }
 
 func (r ownRev) String() string {
@@ -112,12 +123,12 @@ func podNameFor(shape string, i int) string {
 // hasForeign reports whether the case contains an object controlled by another owner.
 func (c ownCase) hasForeign() bool {
 	for _, p := range c.Pods {
-		if p.Present && (p.Owner == "otheruid" || p.Owner == "otherkind") {
+		if p.Present && (p.Owner == "otheruid" || p.Owner == "otherkind" || p.Owner == "builtin") {
 			return true
 		}
 	}
 	for _, r := range c.Revs {
-		if r.Present && (r.Owner == "otheruid" || r.Owner == "otherkind") {
+		if r.Present && (r.Owner == "otheruid" || r.Owner == "otherkind" || r.Owner == "builtin") {
 			return true
 		}
 	}
@@ -127,12 +138,12 @@ func (c ownCase) hasForeign() bool {
 // stripped returns the case without foreign-controlled objects.
 func (c ownCase) stripped() ownCase {
 	for i, p := range c.Pods {
-		if p.Present && (p.Owner == "otheruid" || p.Owner == "otherkind") {
+		if p.Present && (p.Owner == "otheruid" || p.Owner == "otherkind" || p.Owner == "builtin") {
 			c.Pods[i] = ownPod{}
 		}
 	}
 	for i, r := range c.Revs {
-		if r.Present && (r.Owner == "otheruid" || r.Owner == "otherkind") {
+		if r.Present && (r.Owner == "otheruid" || r.Owner == "otherkind" || r.Owner == "builtin") {
 			c.Revs[i] = ownRev{}
 		}
 	}
@@ -263,7 +274,7 @@ func ownPodCells() []ownPod {
 
 func ownRevCells() []ownRev {
 	out := []ownRev{{}}
-	for _, owner := range []string{"", "none", "otheruid", "otherkind"} {
+	for _, owner := range []string{"", "none", "otheruid", "otherkind", "builtin"} {
 		for _, l := range []string{"selector", "marker", "both"} {
 			out = append(out, ownRev{Present: true, Owner: owner, Labels: l})
 		}
@@ -356,7 +367,7 @@ func ownCheck(prop string, apis, policies []string, paused bool, differential bo
 	if prop == "C10" {
 		depth = 2
 	}
-	rep.Rule = fmt.Sprintf("ownership snapshot enumeration: set web (r=3, %v, RU p=0) plus a second set with the same selector; (P) pods at 3 ordinals, up to %d of them replaced by any cell of owner{this,none,other UID,other kind,non-controller ref} x labels{match,no match} x name{S-i,S-x,other-i,S-i-j} x terminating, also without the pod-name label, in another namespace, and re-created behind the cache (API copy with another UID), or absent; (R) full product of three revision slots (data T1=the set's template, T2, T3) each absent or owner{this,none,other UID,other kind} x labels{selector,upgrade marker,both}, x revisionHistoryLimit{0,1,10} x pod-label pinning (none / one live pod / one terminating pod at another revision / all pods at another revision) x revision numbering (descending with age / all equal / reversed, i.e. a rollback pending); x API copy of the set %v; paused=%v. One real reconcile per snapshot. %s Non-trivial = at least one write or an error.", policies, depth, apis, paused, ruleText)
+	rep.Rule = fmt.Sprintf("ownership snapshot enumeration: set web (r=3, %v, RU p=0) plus a second set with the same selector; (P) pods at 3 ordinals, up to %d of them replaced by any cell of owner{this,none,other UID,other kind,non-controller ref} x labels{match,no match} x name{S-i,S-x,other-i,S-i-j} x terminating, also without the pod-name label, in another namespace, and re-created behind the cache (API copy with another UID), or absent; (R) full product of three revision slots (data T1=the set's template, T2, T3) each absent or owner{this,none,other UID,other kind,built-in StatefulSet of the same name} x labels{selector,upgrade marker,both}, x revisionHistoryLimit{0,1,10} x pod-label pinning (none / one live pod / one terminating pod at another revision / all pods at another revision) x revision numbering (descending with age / all equal / reversed, i.e. a rollback pending); x API copy of the set %v; paused=%v. One real reconcile per snapshot. %s Non-trivial = at least one write or an error.", policies, depth, apis, paused, ruleText)
 	rep.Assumptions = apiAssumptions
 	deadline := explore.Deadline(100*time.Second, 15*time.Minute)
 	judge := monitorOf(prop)
@@ -415,7 +426,7 @@ func runOwnCase(rep *explore.Report, w *world.World, c ownCase, judge explore.Ju
 	if len(rec.CacheMutated) > 0 {
 		vs = append(vs, oracle.Violation{Prop: rep.Prop, Rule: "cache-mutated", Msg: fmt.Sprintf("reconcile modified cached objects in place: %v", rec.CacheMutated)})
 	}
-	if differential && c.hasForeign() {
+	if differential && c.hasForeign() && !c.migrationPending() {
 		w.Load(c.stripped().Build(w))
 		rec2 := w.Reconcile(world.NS+"/web", nil)
 		vs = append(vs, oracle.C10Differential(rec, rec2)...)
@@ -453,7 +464,7 @@ var _ appsv1.ControllerRevision
 func init() {
 	register("c10", "ownership: only owned objects are touched; adoption needs fresh confirmation", func([]string) int {
 		return ownCheck("C10", []string{"same", "api-deleting", "other-uid", "absent"}, []string{"Parallel", "OrderedReady"}, false, true,
-			"Oracle: adoption patches only on orphan, matching, well-named, live pods after an uncached read confirming UID and no deletion; releases only for owned non-matching pods, never deleted; no write on anything controlled by another owner; status counts claimed pods only; the set is written only through status; differential: writes equal those of the same snapshot without foreign-owned objects. Plus a fault phase: from the C09 seed closure every write on pods/revisions is hit by a conflict (stale or refreshed cache), an InternalError or a concurrent delete, and the same monitor (incl. cached objects left unmodified) judges the faulted and the recovery reconciles.")
+			"Oracle: adoption patches only on orphan, matching, well-named, live pods after an uncached read confirming UID and no deletion; releases only for owned non-matching pods, never deleted; no write on anything controlled by another owner; status counts claimed pods only; the set is written only through status; differential: writes equal those of the same snapshot without foreign-owned objects (not compared while a revision carrying the upgrade marker is still controlled by the built-in StatefulSet of the same name: the migration of C18 is then under way and the controller may wait for the garbage collector). Plus a fault phase: from the C09 seed closure every write on pods/revisions is hit by a conflict (stale or refreshed cache), an InternalError or a concurrent delete, and the same monitor (incl. cached objects left unmodified) judges the faulted and the recovery reconciles.")
 	})
 	register("c13", "history truncation", func([]string) int {
 		return ownCheck("C13", []string{"same"}, []string{"Parallel"}, false, false,
